@@ -396,7 +396,7 @@ class History:
         self.state = f"a_{self.cid}_{self.k}"
         self.lines.append(f"Definition {self.state} : Store.arch := {g_arch(arch, self.names)}.")
 
-    def add(self, step, res, rules=None, mode=0):
+    def add(self, step, res, rules=None, mode=0, crash=None):
         """Model one executed step.  rules: list of (trace item, nth, fault)."""
         op = step["op"]
         if op == "mktree" and step.get("path", "src") == "src":
@@ -440,7 +440,10 @@ class History:
             return
         self.k += 1
         s = f"s_{self.cid}_{self.k}"
-        self.lines.append(f"Definition {s} := run_rules pre {prog} {self.state} {rules_g} [].")
+        if crash is not None:
+            self.lines.append(f"Definition {s} := run_phi pre {prog} {self.state} (crash_at {crash[0]} {gallina_bool(crash[1])}).")
+        else:
+            self.lines.append(f"Definition {s} := run_rules pre {prog} {self.state} {rules_g} [].")
         name = f"c_{self.cid}_{self.k}_{op}"
         self.lines.append(f"Definition {name} : N := check_run {summ} {s} {self.g_impl_trace(tr)} {mode if mode else (2 if any(is_group_item(r[0]) for r in (rules or [])) else 0)} "
                           f"{gallina_list([str(x) for x in impl_out(res, kind)])}.")
